@@ -12,12 +12,12 @@ GROUPS = [
     _g('C15.O3.cache_geometric', 'h_caches', 'H_CACHES', 'sat', 'bounded-unwind', 'sampler loops cut after 1 iteration (the cache cells are written before any loop); libm uninterpreted',
        ['cmb_random_geometric (cache cells prev, denom)'], unwind=2, partial_unwind=True,
        replace_calls=[('cmb_random_std_exponential', 'cmv_nd_double')], no_standard_checks=True,
-       annotate={'src/cmb_random.c': {('cmb_random_geometric', 'before', 'unsigned x'): 'CMV_EXPORT_GEO', ('cmb_random_std_gamma', 'before', 'if (shape != a_prev)'): 'CMV_EXPORT_GAMMA'}},
+       annotate={'src/cmb_random.c': {('cmb_random_geometric', 'before', 'unsigned x'): 'CMV_EXPORT_GEO', ('cmb_random_std_gamma', 'before', 'if (a != a_prev)'): 'CMV_EXPORT_GAMMA'}},
        stubs=['cmb_random_std_exponential: arbitrary double', 'log/sqrt: uninterpreted pure functions', 'ceil: arbitrary']),
     _g('C15.O3.cache_gamma', 'h_gamma', 'H_CACHES', 'cvc5', 'proved', 'obligations checked at the first draw, i.e. right after the cache handling; the rest of the sampler is cut off there; libm uninterpreted',
-       ['cmb_random_std_gamma (cache cells a_prev, c, d)'], unwind=2, partial_unwind=True,
+       ['cmb_random_std_gamma (cache cells a_prev, c, d; key = shape, or shape + 1 for the boosted case shape < 1)'], unwind=2, partial_unwind=True,
        replace_calls=[('cmb_random_std_normal', 'cmv_gamma_probe')], no_standard_checks=True,
-       annotate={'src/cmb_random.c': {('cmb_random_geometric', 'before', 'unsigned x'): 'CMV_EXPORT_GEO', ('cmb_random_std_gamma', 'before', 'if (shape != a_prev)'): 'CMV_EXPORT_GAMMA'}},
+       annotate={'src/cmb_random.c': {('cmb_random_geometric', 'before', 'unsigned x'): 'CMV_EXPORT_GEO', ('cmb_random_std_gamma', 'before', 'if (a != a_prev)'): 'CMV_EXPORT_GAMMA'}},
        stubs=['cmb_random_std_normal, cmb_random: arbitrary double', 'log/sqrt: uninterpreted pure functions']),
 ]
 
